@@ -9,6 +9,7 @@ From Sdfx Require Import Geo.Vec.
 From Sdfx Require Import Geo.Box.
 From Sdfx Require Import Geo.BoxR.
 From Sdfx Require Import Geo.DCVertex.
+From Sdfx Require Import Geo.DCVertexCorr.   (* float instance used by the cases files *)
 From Sdfx Require Import Generated.DCTables.
 From Sdfx Require Import Algo.DualGrid.
 From Sdfx Require Import Algo.DCModel.
